@@ -43,7 +43,24 @@ CHECKS["C20"] = {
     "technique": "property-based testing (rapid grammar generator + mutation) and native go fuzzing with an in-target semantic oracle",
 }
 
+CHECKS["C07"] = {
+    "title": "DMARC verdict and action equal the specification",
+    "go": GO,
+    "units": [
+        {"name": "msgpipeline", "pkg": "internal/msgpipeline",
+         "overlay": {"verif_c07_test.go": "harness/C07/dmarc_test.go"}},
+    ],
+    "quick": {"n": 40000, "shards": 8},
+    "thorough": {"n": 800000, "shards": 16},
+    "level_text": "randomised search (rapid) over the listed product, each point delivered through a real MsgPipeline with DMARC enabled and "
+                  "compared with a reference model written from the statement / RFC 7489; the thorough tier also enumerates the complete "
+                  "sub-product with exactly one DKIM result (about 3*10^5 points).",
+    "level_note": "organisational domains come from a fixed table in the harness; pct other than absent/100 and junk TXT at the From domain "
+                  "together with a record at the organisational domain are outside the statement and not generated",
+    "technique": "property-based testing (rapid) against a table-driven reference model; exhaustive enumeration of a finite sub-product in the thorough tier",
+}
+
 # properties deliberately not claimed: {"property_id":..., "reason":...}
 NOT_APPLICABLE = []
 
-FIX_COMMITS = ["b0fbfbf", "ce16772", "79536cb", "9da7ceb", "ba9a898"]
+FIX_COMMITS = ["b0fbfbf", "ce16772", "79536cb", "9da7ceb", "ba9a898", "cd17c24"]
